@@ -243,6 +243,22 @@ def gen_tree(rng, depth, o, shape=None):
 
 
 def _composite(rng, k, m, n, depth, o):
+    node = _composite0(rng, k, m, n, depth, o)
+    if node is not None and k in ("BlockDiag", "Kronecker", "KronSum", "Concatenated", "Product") and len(node.get("args", ())) >= 3 \
+            and not node.get("share") and rng.random() < 0.35:
+        # the very same operator object in two (not necessarily adjacent) positions: X, Y, X
+        from harness.refmodel import shape_of
+        args = node["args"]
+        shp = [shape_of(a) for a in args]
+        pairs = [(i, j) for i in range(len(args)) for j in range(i + 1, len(args)) if shp[i] == shp[j]]
+        if pairs:
+            i, j = pairs[-1] if rng.random() < 0.7 else pairs[0]
+            node["args"] = [args[i] if t == j else a for t, a in enumerate(args)]
+            node["share"] = True
+    return node
+
+
+def _composite0(rng, k, m, n, depth, o):
     d = depth - 1
     via = pick(rng, o.vias)
     if k == "Product":
